@@ -14,6 +14,79 @@ def nfield(k):
     return lambda fs: sum(1 for x in fs if x[0] == "field") >= k
 
 
+def canon_stmt(s, names):
+    """structural text of a statement with local variables renamed in order of first appearance"""
+    if s is None:
+        return ""
+    if not isinstance(s, dict):
+        return str(s)
+    k = s.get("k")
+    if k == "Ref":
+        if s.get("rk") == "local":
+            return names.setdefault(s["id"], "L%d" % len(names))
+        return s["n"]
+    if k == "Int":
+        return str(s.get("v"))
+    parts = [k, s.get("op", ""), s.get("callee", ""), s.get("f", "")]
+    for key in ("c", "x", "y", "e", "b", "i", "then", "else", "body", "init", "inc", "sub"):
+        if isinstance(s.get(key), dict):
+            parts.append(key + "=" + canon_stmt(s[key], names))
+    for key in ("a", "d"):
+        if isinstance(s.get(key), list):
+            parts.append(key + "=[" + ",".join(canon_stmt(x, names) for x in s[key]) + "]")
+    if k == "Block":
+        parts.append("[" + ";".join(canon_stmt(x, names) for x in s["b"]) + "]")
+    if k == "Cast":
+        parts.append(s.get("t") or "")
+    return "(" + " ".join(p for p in parts if p) + ")"
+
+
+def hash_slice(f):
+    """top-level statements of f that turn (hash, hash_len) into the field element: from the first statement whose
+    condition mentions hash_len up to and including the first qrFrom call"""
+    body = f.body.get("b", [])
+    out, on = [], False
+    for st in body:
+        mentions = False
+        if st.get("k") == "If":
+            c = ir.strip(st["c"])
+            mentions = c.get("k") == "Bin" and c["op"] in ("<", "<=", ">", ">=") and any(
+                ir.strip(x).get("k") == "Ref" and ir.strip(x).get("n") == "hash_len" for x in (c["x"], c["y"]))
+        if not on and mentions:
+            on = True
+        if on:
+            out.append(st)
+            if any(c.get("callee") == "qrFrom" for c in ir.calls(st)):
+                break
+    return out
+
+
+def check_sibling_hash_conversion(prog, res):
+    """writer/reader agreement: dstuSign and dstuVerify must turn the hash into a field element identically"""
+    fs = [prog.funcs.get(n) for n in ("dstuSign", "dstuVerify")]
+    if any(f is None or f.body is None for f in fs):
+        raise AnalysisBroken("dstuSign/dstuVerify vanished")
+    slices = [hash_slice(f) for f in fs]
+    if not all(slices) or not all(any(c.get("callee") == "qrFrom" for st in sl for c in ir.calls(st)) for sl in slices):
+        raise AnalysisBroken("hash-to-field conversion slice not found in dstuSign/dstuVerify")
+    texts = []
+    for sl in slices:
+        names = {}
+        texts.append(";".join(canon_stmt(st, names) for st in sl))
+    f = fs[1]
+    if texts[0] == texts[1]:
+        res.proved("R16.6-sign-verify-agree-on-hash-conversion", function="dstuVerify", file=f.relfile, line=slices[1][0]["l"],
+                   construct="dstuSign / dstuVerify hash-to-field slice",
+                   detail="the %d statement(s) that map (hash, hash_len) to the field element are structurally identical in both" % len(slices[1]))
+    else:
+        # first differing position for the report
+        i = next((k for k in range(min(len(texts[0]), len(texts[1]))) if texts[0][k] != texts[1][k]), 0)
+        res.violation("R16.6-sign-verify-agree-on-hash-conversion", function="dstuVerify", file=f.relfile, line=slices[1][0]["l"],
+                      construct="dstuSign / dstuVerify hash-to-field slice",
+                      detail="signer and verifier convert the hash to a field element differently (first difference near `%s` vs `%s`): "
+                             "a signature produced by dstuSign need not verify" % (texts[0][max(0, i - 30):i + 30], texts[1][max(0, i - 30):i + 30]))
+
+
 def run(tier, seed=0):
     res = Result("C16", "other", tier)
     prog = ir.Program("w64")
@@ -43,6 +116,7 @@ def run(tier, seed=0):
     M(prog, res, "R16.5-accept-only-verified", "dstuPointVal",
       [("coordinates reduced (qrFrom x2)", nfield(2)), ("on-curve test", ANY(FACT("oncurve", r"."), T("ec2IsOnA("))),
        ("order test", T("ecHasOrderA("))])
+    check_sibling_hash_conversion(prog, res)
     res.floor("sampling sites", n1, 4)
     res.floor("private-key loads", n2, 3)
     res.floor("modular call sites", n3, 10)
